@@ -353,12 +353,26 @@ Fixpoint collapse_from (prev_space : bool) (s : str) : str :=
   end.
 Definition collapse (s : str) : str := collapse_from false s.
 
+(* str.strip(" ") *)
+Fixpoint rstrip32 (s : str) : str :=
+  match s with
+  | [] => []
+  | c :: r => match rstrip32 r with
+              | [] => if c =? 32 then [] else [c]
+              | r' => c :: r'
+              end
+  end.
+Definition strip32 (s : str) : str := rstrip32 (drop_while (N.eqb 32) s).
+
 Definition post (d : dt) (s : str) : str :=
   match d with
   | DNormalizedString => norm_ws s
-  | DToken => collapse (strip (norm_ws s))
+  | DToken => collapse (strip32 (norm_ws s))
   | _ => s
   end.
+
+Definition is_ws_type (d : dt) : bool :=
+  match d with DNormalizedString | DToken => true | _ => false end.
 
 Definition is_plain (d : dt) : bool := match d with DPlain => true | _ => false end.
 
@@ -373,7 +387,13 @@ Definition construct (d : dt) (l : str) (norm : bool) : lit :=
              | Some x => if norm then fst (cast_python x) else l
              | None => l
              end in
-  {| l_lex := post d lex; l_ill := ill; l_val := v |}.
+  let lex' := post d lex in
+  (* normalizedString / token: a str value is replaced by the white-space-processed string *)
+  let v' := match v with
+            | Some (VStr _) => if is_ws_type d then Some (VStr lex') else v
+            | _ => v
+            end in
+  {| l_lex := lex'; l_ill := ill; l_val := v' |}.
 
 (* python-object branch, explicit datatype d (DPlain = none given) *)
 Inductive dtres := RNone | RDt (d : dt) | ROther.
@@ -528,10 +548,17 @@ Fixpoint has_double_space (s : str) : bool :=
 
 Definition no_tab_nl (s : str) : bool := forallb (fun c => negb ((c =? 9) || (c =? 10) || (c =? 13))) s.
 
+Fixpoint ends_with_space (s : str) : bool :=
+  match s with
+  | [] => false
+  | [c] => c =? 32
+  | _ :: r => ends_with_space r
+  end.
+
+Definition starts_with_space (s : str) : bool := match s with c :: _ => c =? 32 | [] => false end.
+
 Definition xsd_token_ok (s : str) : bool :=
-  no_tab_nl s && negb (has_double_space s)
-  && match s with c :: _ => negb (c =? 32) | [] => true end
-  && match rev s with c :: _ => negb (c =? 32) | [] => true end.
+  no_tab_nl s && negb (has_double_space s) && negb (starts_with_space s) && negb (ends_with_space s).
 
 (* the lexical-to-value map L2V of datatype d; None = outside the lexical space *)
 Definition xsd_value (d : dt) (l : str) : option xval :=
@@ -650,12 +677,8 @@ Definition obs_eqb (a b : obs) : bool :=
    (region numbers are assigned by harness/c09.py from the *input* alone) *)
 Definition conf_expected (region : N) : N :=
   match region with
-  | 1 => 1      (* python float inf / nan: lexical form outside the lexical space (F14) *)
-  | 2 => 4      (* hexBinary / base64Binary: normalize() is not value preserving / idempotent (F14e) *)
   | 3 => 1      (* bytes: lexical form is the repr of the bytes object (F14f) *)
-  | 4 => 2      (* valid lexical form flagged ill-typed or given another value (F14g) *)
-  | 5 => 8      (* invalid lexical form accepted without the ill-typed flag (F14c, unmodelled datatypes) *)
-  | 6 => 2      (* valid double/float form of a non-finite value: normalised to python's inf / nan (F14) *)
+  | 4 => 2      (* valid date/time/duration form flagged ill-typed, given another value, or raising (F14g) *)
   | 7 => 4      (* negative duration with year-month and day-time parts: the constructor raises (F14g) *)
   | _ => 0
   end.
@@ -690,28 +713,37 @@ Definition ill_ok (d : dt) (i : option bool) (expected : bool) : bool :=
 
 Definition implb' (a b : bool) : bool := if a then b else true.
 
+(* a valid form: accepted, not flagged, the XSD value; the stored form, the normal form and the
+   re-read form denote that value; without normalisation the form is kept; x.eq(x.normalize()) *)
+Definition lex_valid_ok (d : dt) (l : str) (norm : bool) (xv : xval) (x n1 re : lit) (e : eqres) : bool :=
+  ill_ok d (l_ill x) false
+  && denotes (l_val x) xv && lex_denotes d (l_lex x) xv
+  && (norm || str_eqb (l_lex x) l)
+  && denotes (l_val n1) xv && lex_denotes d (l_lex n1) xv
+  && denotes (l_val re) xv && lex_denotes d (l_lex re) xv && ill_ok d (l_ill re) false
+  && eqres_eqb e ETrue.
+
+(* "eq holds whenever term equality does" is demanded for every literal except decimals built from
+   forms outside the lexical space (python's Decimal("NaN") is not == to itself) *)
+Definition eq_scope (d : dt) (l : str) : bool :=
+  match family_of d with
+  | FamDec => match xsd_value d l with Some _ => true | None => false end
+  | _ => true
+  end.
+
 Definition spec_ok (c : case) (o : obs) : bool :=
   match c, o with
   | CLex d l norm, OLex x n1 n2 re e same =>
+      (* nothing is demanded about the flag or value of a form outside the lexical space *)
       (match xsd_value d l with
-       | Some xv =>
-           (* a valid form: accepted, not flagged, the XSD value; the stored form and every
-              normal form denote that value *)
-           ill_ok d (l_ill x) false
-           && denotes (l_val x) xv && lex_denotes d (l_lex x) xv
-           && (norm || str_eqb (l_lex x) l)
-           && denotes (l_val n1) xv && lex_denotes d (l_lex n1) xv
-           && denotes (l_val re) xv && lex_denotes d (l_lex re) xv && ill_ok d (l_ill re) false
-           && eqres_eqb e ETrue
-       | None =>
-           (* outside the lexical space: flagged *)
-           ill_ok d (l_ill x) true
+       | Some xv => lex_valid_ok d l norm xv x n1 re e
+       | None => true
        end)
       (* normalising a normalised literal changes nothing *)
       && str_eqb (l_lex n2) (l_lex n1) && opt_eqb val_same (l_val n2) (l_val n1)
       && implb' norm (str_eqb (l_lex re) (l_lex x))
       (* term equality implies value equality *)
-      && implb' same (eqres_eqb e ETrue)
+      && implb' (same && eq_scope d l) (eqres_eqb e ETrue)
   | CPy v, OPy dr x back e =>
       dtres_eqb dr (documented_dt v)
       && (let d := match dr with RDt d => d | _ => DPlain end in
@@ -725,7 +757,7 @@ Definition spec_ok (c : case) (o : obs) : bool :=
           | None => false
           end)
   | CEq d1 l1 n1 d2 l2 n2, OEq same e =>
-      implb' same (eqres_eqb e ETrue)
+      implb' (same && eq_scope d1 l1 && eq_scope d2 l2) (eqres_eqb e ETrue)
       && match xsd_value d1 l1, xsd_value d2 l2 with
          | Some x1, Some x2 =>
              if comparable d1 d2 then eqres_eqb e (eqres_of (xval_eqb x1 x2)) else true
@@ -738,40 +770,17 @@ Definition spec_ok (c : case) (o : obs) : bool :=
 (* ------------------------------------------------------------------ *)
 (* known-finding triggers (regions described on the input alone)       *)
 
-(* the code accepts the form without flagging it *)
-Definition accepted (d : dt) (l : str) : bool :=
-  match l_ill (construct d l false) with Some true => false | _ => true end.
-
-Definition is_unbounded_long (d : dt) : bool := match d with DLong | DUnsignedLong => true | _ => false end.
-
-Definition is_ws_type (d : dt) : bool :=
-  match d with DNormalizedString | DToken => true | _ => false end.
-
 Definition special_dec (v : val) : bool :=
   match v with VDec (DFin _ _ _) => false | VDec _ => true | _ => false end.
 
+(* python values the model covers *)
+Definition wf (c : case) : bool := match c with CPy VOther => false | _ => true end.
+
 Definition kf (c : case) : N :=
   match c with
-  | CLex d l _ =>
-      match xsd_value d l with
-      | None =>
-          (* 1: a form outside the lexical space is not flagged (F14c).  For the integer datatypes the
-             region is: forms that are not XSD integers at all (python's extras: white space,
-             underscores, non-ASCII digits), and out-of-range XSD integers for long / unsignedLong only *)
-          if accepted d l then
-            match family_of d, xsd_int_lex l with
-            | FamInt, Some _ => if is_unbounded_long d then 1 else 0
-            | _, _ => 1
-            end
-          else 0
-      | Some _ => if is_ws_type d && negb (str_eqb (post d l) l) then 2 else 0
-          (* 2: a valid token is rewritten (str.strip strips more than XSD white space) (F14d) *)
-      end
   | CPy v => if special_dec v then 3 else 0
           (* 3: Decimal NaN / Infinity have no xsd:decimal lexical form (F14b) *)
-  | CEq d1 l1 _ d2 l2 _ =>
-      if is_ws_type d1 && dt_eqb d1 d2 && str_eqb (post d1 l1) (post d2 l2) && negb (str_eqb l1 l2) then 2 else 0
-          (* 2: the value keeps the un-normalised string: equal terms, different values (F14d) *)
   | CConf _ region =>
-      match region with 1 => 4 | 2 => 5 | 3 => 6 | 4 => 7 | 5 => 1 | 6 => 4 | 7 => 7 | _ => 0 end
+      match region with 3 => 6 | 4 => 7 | 7 => 7 | _ => 0 end
+  | _ => 0
   end.
